@@ -14,7 +14,7 @@ ASSUMPTIONS = [
 ]
 BOUNDS = {"quick": "TOTP: every 20-octet digest (free), every time 0..2^40, offsets -1,0,1; CRA: free 32-octet digests, key lengths {16,32,57,58,64,96}, salted and unsalted; SCRAM: free 32-octet KDF/HMAC/hash outputs, every 32-octet alleged server signature, both KDFs, WELCOME with/without prior CHALLENGE; cryptosign: all 32+32 octets of challenge and channel id",
           "thorough": "same plus key lengths 1..128"}
-EXPECT_COVERS = ["totp", "totp:check", "cra:salted", "cra:plain", "scram:proof", "scram:welcome-accept", "scram:welcome-reject", "scram:no-challenge", "scram:no-signature", "cryptosign:bound", "cryptosign:unbound"]
+EXPECT_COVERS = ["totp", "totp:check", "cra:salted", "cra:plain", "scram:proof", "scram:welcome-accept", "scram:welcome-reject", "scram:no-challenge", "scram:no-signature", "cryptosign:bound", "cryptosign:unbound", "cryptosign:signed"]
 BUDGET = {"quick": dict(wall_s=300, max_paths=20000, diff_samples=3), "thorough": dict(wall_s=1800)}
 
 B64 = b"ABCDEFGHIJKLMNOPQRSTUVWXYZabcdefghijklmnopqrstuvwxyz0123456789+/"
@@ -353,6 +353,52 @@ def cryptosign(sx, bound):
     return [bound]
 
 
+def cryptosign_sign(sx, late, fw="twisted"):
+    """what the authenticator hands to the session for AUTHENTICATE: hex(signature) + hex(signed data), as text, for every 64-octet signature
+    and every 32 octets of data, whether the signer answers at once or later - on the networking framework in use"""
+    import txaio
+    from autobahn.wamp import cryptosign as cs
+    from symx.core import mkstr
+    loop = None
+    if fw == "asyncio":
+        from . import wslib
+        loop = wslib.setup_asyncio()
+    sig = sx.bytes("sig", 64)
+    data = sx.bytes("data", 32)
+    pending = []
+
+    def signer(d):
+        f = txaio.create_future()
+        if late:
+            pending.append(f)
+        else:
+            txaio.resolve(f, sig)
+        return f
+    out = []
+    res = cs._sign_challenge(data, signer)
+    txaio.add_callbacks(res, lambda v: out.append(v), lambda f: out.append(("err", f)))
+    if loop is not None:
+        wslib.run_loop(loop)
+    if late:
+        sx.check(not out, "nothing-resolved-before-the-signer-answered", info=dict(fw=fw))
+        txaio.resolve(pending[0], sig)
+        if loop is not None:
+            wslib.run_loop(loop)
+    info = dict(fw=fw, late=late, got_type=type(out[0]).__name__ if out else None)
+    sx.check(len(out) == 1, "signature-future-resolves-once", info=info)
+    if out:
+        v = out[0]
+        hx = []
+        for b in list(sig) + list(data):
+            for nib in ((b >> 4) & 15, b & 15):
+                hx.append(sx.ite(nib < 10, nib + 48, nib + 87))
+        sx.check(isinstance(v, str) or (sx.is_sym(v) and hasattr(v, "items") and not isinstance(v, (bytes, bytearray)) and type(v).__name__ == "SymStr"),
+                 "AUTHENTICATE-signature-is-text", info=info)
+        sx.check(len(v) == 192 and v == mkstr(hx), "AUTHENTICATE-signature==hex(signature)+hex(signed-data)", info=info)
+    sx.cover("cryptosign:signed")
+    return [fw, late]
+
+
 def units(tier):
     U = [("totp", "totp", dict(), dict(weight=5)), ("totp-check", "totp_check", dict(), dict(weight=5)), ("totp-lemma", "step_lemma", dict())]
     q = tier == "quick"
@@ -365,4 +411,7 @@ def units(tier):
     U.append(("scram/no-signature", "scram", dict(kdf="argon2id-13", phase="no-signature")))
     for b in (True, False):
         U.append(("cryptosign/%s" % ("bound" if b else "unbound"), "cryptosign", dict(bound=b), dict(weight=3)))
+    for late in (False, True):
+        U.append(("cryptosign/sign/tw/%s" % ("late" if late else "now"), "cryptosign_sign", dict(late=late)))
+        U.append(("cryptosign/sign/aio/%s" % ("late" if late else "now"), "cryptosign_sign", dict(late=late, fw="asyncio"), dict(framework="asyncio")))
     return U
